@@ -654,3 +654,52 @@ R.contract(
     replayable=False,
 )
 R.contracts[H + "HookDispatcher._validate_hook"].inline = True
+
+
+# ------------------------------------------------------------------------------------------------- register_hook_with_name / unregister: hooks of a name are kept in registration order; removing one leaves the others
+R.contract(
+    H + "HookDispatcher.register_hook_with_name",
+    variant="storing",
+    prop="C19",
+    setup=_with_specs("register_hook_with_name"),
+    args={"self": Obj(H + "HookDispatcher", scope=EnumOf(H + "HookScope", ["GLOBAL"]), _hooks=DictOf(required={"before_generate_query": ListOf(Opq("EarlierHook"), [0, 1, 2]), "after_init": ListOf(Opq("EarlierHook"), [0, 1])})),
+          "hook": Obj("spec:UserFunction", params=Const(("context", "x"))), "name": Choice("before_generate_query", "after_init", "no_such_hook")},
+    raises=["TypeError", "ValueError"],
+    ensures={
+        # hooks run in registration order (apply_to_container / dispatch iterate this list): a new hook goes to the END of ITS name's list, nothing else moves
+        "appended_to_its_own_names_list": "self._hooks[name][-1] is hook and length(self._hooks[name]) == old(length(self._hooks[name])) + 1 and "
+                                          "all(self._hooks[name][i] is old(list(self._hooks[name]))[i] for i in range(old(length(self._hooks[name])))) and result is hook",
+        "other_names_untouched": "all(length(self._hooks[n]) == length(old(deep_lists(self._hooks))[n]) for n in self._hooks if n != name)",
+    },
+    raises_ensures={"a_rejected_hook_is_not_registered": "all(length(self._hooks[n]) == length(old(deep_lists(self._hooks))[n]) for n in self._hooks)"},
+    bounded_note="up to 2 earlier hooks per name",
+    replayable=False,
+)
+R.spec_funcs["deep_lists"] = lambda it, d: {k: list(v) for k, v in d.items()}
+R.contract(
+    H + "HookDispatcher.unregister",
+    prop="C19",
+    args={"self": Obj(H + "HookDispatcher", scope=EnumOf(H + "HookScope", ["GLOBAL"]), _hooks=DictOf(required={"a": ListOf(Opq("RegisteredHook"), [0, 1, 2, 3]), "b": ListOf(Opq("RegisteredHook"), [0, 1])})),
+          "hook": Opq("RegisteredHook")},
+    raises=[],
+    ensures={
+        # removing one hook removes exactly that function, everywhere; all other hooks stay, in their order
+        "only_that_hook_is_removed_everywhere": "all(not any(h is hook for h in self._hooks[n]) for n in self._hooks) and "
+                                                "all(kept(old(deep_lists(self._hooks))[n], hook, list(self._hooks[n])) for n in self._hooks)",
+    },
+    bounded_note="up to 3 hooks per name",
+)
+R.spec_funcs.setdefault("same_ref", lambda it, a, b: a is b)
+
+
+def _kept(it, before, hook, after):
+    """`after` is `before` without the entries identical to `hook`, in order (identity of opaque references is decided by the solver, as in the code)."""
+    from pyvc.ops import is_, truthy
+
+    expected = [h for h in before if not it.path.branch(truthy(is_(h, hook)))]
+    return len(expected) == len(after) and all(a is b for a, b in zip(expected, after))
+
+
+R.spec_funcs["kept"] = _kept
+NATIVE = dict(globals().get("NATIVE", {}))
+NATIVE.setdefault("helpers", {}).update({"deep_lists": lambda d: {k: list(v) for k, v in d.items()}, "kept": lambda before, hook, after: [h for h in before if h is not hook] == after})
